@@ -193,7 +193,10 @@ def rand_default(rng, t):
     return ('V', rand_scalar(rng, t))
 
 
-def rand_schema(rng, nmsgs=None, max_fields=8, allow_generic=True, syntax=None, big=False, types=None):
+DEFAULT_EQ_P = 0.25      # probability that a present field with a declared default holds exactly that default
+
+
+def rand_schema(rng, nmsgs=None, max_fields=8, allow_generic=True, syntax=None, big=False, types=None, dflt_p=0.35):
     nmsgs = nmsgs or rng.choice([1, 1, 2, 2, 3, 4])
     msgs = []
     syntax = syntax or rng.choice([2, 2, 3])
@@ -254,7 +257,7 @@ def rand_schema(rng, nmsgs=None, max_fields=8, allow_generic=True, syntax=None, 
             init = None
             if t == T_STRING and syn == 3:
                 dflt = ('E', None)
-            elif syn == 2 and label != L_REP and t != T_MESSAGE and rng.random() < 0.35 and not (initmode == 1 and g >= 0):
+            elif syn == 2 and label != L_REP and t != T_MESSAGE and rng.random() < dflt_p and not (initmode == 1 and g >= 0):
                 dflt = rand_default(rng, t)
             elif syn == 2 and t == T_ENUM and label != L_REP and g < 0 and initmode == 0 and rng.random() < 0.3:
                 init = rng.choice([1, 5, 0xffffffff, 0x80000000])   # first declared value of some enum
@@ -296,7 +299,7 @@ def init_val(f):
 
 def rand_val(rng, schema, f, depth, big=False, budget=None):
     t = f.type
-    if f.dflt is not None and f.dflt[0] in ('V', 'S', 'B') and rng.random() < 0.25:
+    if f.dflt is not None and f.dflt[0] in ('V', 'S', 'B') and rng.random() < DEFAULT_EQ_P:
         # explicitly present, but holding exactly the declared default value
         k, v = f.dflt
         if k == 'V':
@@ -405,6 +408,59 @@ def rand_msg(rng, schema, ty, depth=0, big=False, unknown=True, budget=None):
             if cases[f.group] != f.id:
                 slots[i][2] = ('zero',)
     return {'ty': ty, 'slots': [tuple(s) for s in slots], 'unk': rand_unknown(rng, m, big) if unknown else []}
+
+
+def _slot(f, present, v):
+    if not present:
+        return ('one', 0, init_val(f))
+    q = 1 if (f.label == L_OPT and f.type not in (T_STRING, T_MESSAGE)) else 0
+    return ('one', q, v)
+
+
+def _zero_val(f):
+    if f.type == T_STRING:
+        return ('str', 'S', b'')
+    if f.type == T_BYTES:
+        return ('bin', 0, 'B', b'')
+    return ('w', 0)
+
+
+def matrix_earlier(rng, schema, ty, L):
+    """an EARLIER occurrence E for the (later) message L of type ty, built so that every cell of the merge matrix
+    {E set to something distinctive} x {L absent | L explicitly equal to the declared default | L explicitly
+    zero/empty | L set otherwise} and {E absent} x {L set} is hit with equal probability for each singular
+    scalar/string/bytes field.  Mutates L's slots (L has not been encoded yet)."""
+    m = schema.msgs[ty]
+    E = rand_msg(rng, schema, ty, depth=2)
+    Ls, Es = list(L['slots']), list(E['slots'])
+    for i, f in enumerate(m.fields):
+        if f.label == L_REP or f.oneof or f.type == T_MESSAGE:
+            continue
+        nd = None
+        for _ in range(6):
+            v = rand_val(rng, schema, f, 9)
+            if is_present(Field(f.name, f.id, L_NONE, f.type), ('one', 0, v)) and sem_val(schema, f, v) != sem_val(schema, f, init_val(f)):
+                nd = v
+                break
+        if nd is None:
+            continue
+        r = rng.randrange(5)
+        if r == 4:
+            if f.label != L_REQ:
+                Es[i] = _slot(f, False, None)
+            continue
+        Es[i] = _slot(f, True, nd)
+        if r == 0 and f.label != L_REQ:
+            Ls[i] = _slot(f, False, None)
+        elif r == 1 and f.dflt is not None and f.dflt[0] in ('V', 'S', 'B'):
+            k, v = f.dflt
+            Ls[i] = _slot(f, True, ('w', v) if k == 'V' else ('str', 'S', bytes(v)) if k == 'S' else (('bin', len(v), 'B', bytes(v)) if len(v) else ('bin', 0, 'B', b'')))
+        elif r == 2:
+            Ls[i] = _slot(f, True, _zero_val(f))
+        # r == 3 (or no default declared): L keeps what it has
+    L['slots'] = Ls
+    E['slots'] = Es
+    return E
 
 
 def lit_val(schema, f, v):
@@ -743,7 +799,7 @@ def encode_records(schema, msg, rng=None, knobs=None):
                 # one or two EARLIER, independent occurrences of the same embedded message (complete in their
                 # required fields); what the merge must yield is decided by the reference implementation
                 for k in range(rng.choice([1, 1, 2])):
-                    e = rand_msg(rng, schema, f.sub, depth=2)
+                    e = matrix_earlier(rng, schema, f.sub, s[2][1]) if (knobs.get('matrix') and k == 0) else rand_msg(rng, schema, f.sub, depth=2)
                     body = encode(schema, e, rng, dict(knobs, multi_occ=False, split_msg=False, later_occ=knobs.get('later_occ') or k > 0))
                     recs.append(enc_key(f.id, 2, rng, knobs.get('pad', False)) + enc_len(len(body), rng, knobs.get('pad', False)) + body)
                 recs.append(enc_elem(schema, f, s[2], rng, dict(knobs, later_occ=True)))
